@@ -12,7 +12,7 @@ from contracts import inputs as vin
 from vt import env as venv
 from vt import symx
 
-RANGE_BOUND = 24  # unrolling bound for `range(1, n+1)` over a symbolic count (children)
+RANGE_BOUND = 50  # unrolling bound for `range(1, n+1)` over a symbolic count (children)
 
 
 def is_scalar_rule(func):
